@@ -70,6 +70,14 @@ class NumTr:
         return f"v_{name}"
 
     def test(self, e):
+        if isinstance(e, ast.UnaryOp) and isinstance(e.op, ast.Not):
+            return f"(negb {self.test(e.operand)})"
+        if isinstance(e, ast.BoolOp) and isinstance(e.op, ast.Or):
+            parts = [self.test(v) for v in e.values]
+            out = parts[-1]
+            for p in reversed(parts[:-1]):
+                out = f"(orb {p} {out})"
+            return out
         if isinstance(e, ast.BoolOp) and isinstance(e.op, ast.And):
             parts = [self.test(v) for v in e.values]
             out = parts[-1]
